@@ -207,7 +207,7 @@ CLAIMS['C12'] = dict(
           "chunk patterns x interrupts x a stop (Ok(0) or hard failure, 7 kinds) at EVERY offset 0..len x fixed "
           "buffers of EVERY capacity 0..len+1 x object_length, std and no_std io; oracle: delivered bytes are the "
           "first k bytes of the encoding and the error is unchanged. Partial: writers outside the script language "
-          "(returning more than given, Interrupted forever) are not modelled. C12_any_writer: for ANY writer honouring the io::Write contract (a successful write_all delivered its buffer, a failed one a prefix of it) what reaches the sink is always a prefix of the encoding in order, and on Ok exactly the encoding; Vec and fixed buffers are instances."),
+          "(returning more than given, Interrupted forever) are not modelled. C12_any_writer: for ANY writer honouring the io::Write contract (a successful write_all delivered its buffer, a failed one a prefix of it) what reaches the sink is always a prefix of the encoding in order, and on Ok exactly the encoding; Vec and fixed buffers are instances. Every scripted writer is proved to honour that contract for EVERY script (writeAllLoop_prefix: any chunking, interrupt placement, Ok(0) or hard failure anywhere - AnyWriter.script), so C12_script_prefix holds unconditionally: whatever the script does, the sink holds a prefix of the encoding, and Ok means the whole encoding."),
     technique="Lean 4 proof (trace semantics; closed forms for fixed buffers and the length writer) + differential check with scripted writers",
     design_ref="§5 C12")
 
